@@ -74,6 +74,9 @@ pub fn build_case(data: &[u16], tier: Tier, max_depth: u8, mate_bias: usize) -> 
         }
         searches.push(SearchSpec { fen: fen.clone(), moves: moves.clone(), limit: Limit::Depth(depth(&mut t)) });
     }
+    for sp in searches.iter_mut() {
+        tame(sp);
+    }
     Some((hash_mb, searches))
 }
 
